@@ -8,7 +8,8 @@
    cfg_ok c  :=  0 < n, 0 < d, 0 < file cadence, 0 < subdir cadence, file cadence | subdir cadence
    round_down x m := m * (x / m). *)
 From Coq Require Import ZArith List Sorted.
-From DRF Require Import Base.DivLemmas Model.Ld80 Model.MdPlace Proofs.MdPlaceProofs.
+From DRF Require Import Base.DivLemmas Model.Ld80 Model.MdPlace Model.MdStore Model.MdLive Proofs.MdPlaceProofs
+  Proofs.MdStoreProofs Proofs.MdLiveProofs.
 Import ListNotations.
 Local Open Scope Z_scope.
 
@@ -82,3 +83,18 @@ Theorem C13_u64wrap_variant_refuted :
     ~ In (w_path U64Wrap c k) (candidates Exact c k k).
 Proof. exact u64_writer_refuted. Qed.
 Print Assumptions C13_u64wrap_variant_refuted.
+
+(* across writer sessions: a DigitalMetadataWriter opened on an existing channel with any different
+   parameter (rate, file cadence, subdirectory cadence) is refused and touches nothing ... *)
+Theorem C13_mismatched_session_refused : forall fs c' calls,
+  c' <> f_props fs -> open_writer fs c' = None /\ run_sessions fs [(c', calls)] = fs.
+Proof. exact mismatched_session_refused. Qed.
+Print Assumptions C13_mismatched_session_refused.
+
+(* ... so after any sequence of sessions the channel keeps its parameters and holds exactly the calls
+   of the sessions opened with identical parameters, every sample placed by that one rule (to which
+   all theorems above and C12's apply) *)
+Theorem C13_sessions_keep_one_rule : forall c ss,
+  run_sessions (mkFs c [] []) ss = mkFs c (run_writes Exact c (accepted_calls c ss)) [].
+Proof. exact sessions_keep_one_rule. Qed.
+Print Assumptions C13_sessions_keep_one_rule.
